@@ -278,6 +278,56 @@ func C09(c *fw.Ctx) {
 			}
 		}
 	}
+	// many distinct words in ONE text: every word of length 2 over eight characters and of length 3 over
+	// five, in four orders, with the keywords and built-in names interleaved; each token carries its own
+	// piece of the text (a table of words keyed by anything less than the word itself would mix them up)
+	{
+		var words []string
+		a2 := []string{"A", "B", "C", "a", "b", "c", "\u0995", "\u0996"}
+		for _, x := range a2 {
+			for _, y := range a2 {
+				words = append(words, x+y)
+			}
+		}
+		a3 := []string{"A", "B", "a", "b", "\u0995"}
+		for _, x := range a3 {
+			for _, y := range a3 {
+				for _, z := range a3 {
+					words = append(words, x+y+z)
+				}
+			}
+		}
+		var kws []string
+		for k := range model.Keywords {
+			kws = append(kws, k)
+		}
+		sort.Strings(kws)
+		kws = append(kws, model.Builtins...)
+		for order := 0; order < 4; order++ {
+			if !c.Mine() {
+				continue
+			}
+			var parts []string
+			n := len(words)
+			for i := 0; i < n; i++ {
+				j := i
+				switch order {
+				case 1:
+					j = n - 1 - i
+				case 2:
+					j = (i * 7) % n
+				case 3:
+					j = (i*13 + 5) % n
+				}
+				parts = append(parts, words[j])
+				if i%5 == order {
+					parts = append(parts, kws[(i/5)%len(kws)])
+				}
+			}
+			lexCompare(c, strings.Join(parts, " "))
+			lexCompare(c, strings.Join(parts, "\n"))
+		}
+	}
 	c.Bound("code_points", "all 1 112 064 scalar values x {alone, a□, □1}")
 	c.R.States = c.R.Evaluations
 	c.R.Transitions = c.R.Evaluations
